@@ -295,6 +295,7 @@ impl SessionEngine {
             &&& final(self).outgoing_link_frames.queue@.len() == 0
             &&& r == Err::<Running, SessionInnerError>(state_err_to_inner(match incoming.body->End_0.error { Some(e) => SessionStateError::RemoteEndedWithError(e), None => SessionStateError::RemoteEnded }))   // [C13.session.peer-end-error] the error carried by the peer's end (or plain RemoteEnded) is what is reported, nothing else
         }),
+        (old(self).session.st is EndSent || old(self).session.st is Discarding) ==> final(self).outgoing.sent@ == old(self).outgoing.sent@,   // [C13.session.nothing-after-end] once the local End is out NOTHING follows it on the channel, whatever still arrives from the peer (a Flow that re-opens its window or asks for an echo, transfers that use up the incoming window, dispositions to be echoed)
         incoming.body is End && (old(self).session.st is EndSent || old(self).session.st is Discarding) ==>
             final(self).session.st is Unmapped && final(self).outgoing.sent@ == old(self).outgoing.sent@
             && (incoming.body->End_0.error is None ==> r == Ok::<Running, SessionInnerError>(Running::Stop)),       // [C13.session.end-completed] the peer's answer to our end completes the session: nothing more is sent and the engine stops
